@@ -414,6 +414,8 @@ def run(cx, rep):
     declaration_scope_rule(cx, rep, "C08.11")
     # ---------------------------------------------------------------- C08.12
     rejecting_visited_set_rule(cx, rep, "C08.12")
+    # ---------------------------------------------------------------- C08.13
+    per_binding_result_rule(cx, rep, "C08.13")
     rep.rule("C08.7", "the dispatch table and the schema table of a discriminated union are built alike")
     sibling_tables_rule(cx, rep, "C08.7")
     rep.rule("C08.8", "renaming, introducing or inlining a generic wrapper does not change what a type parameter means (scope stacks are searched innermost-first; = C01.8)")
@@ -726,3 +728,62 @@ def _reaches(F, src, dst, _memo={}):
                 todo.append(h)
     _memo[key] = ok
     return ok
+
+
+# ---------------------------------------------------------------------------------------------------- C08.13
+def per_binding_result_rule(cx, rep, rid):
+    """`{ [K in Keys]: F<K> }` is lowered once per key, with K bound to that key on the scope stack.  What is lowered
+    under the binding of one key belongs to that key: a type carried from one iteration of the loop into the next
+    (a `shared` / `cached` local assigned inside the loop and read inside it) hands the member computed for the FIRST
+    key to the others whenever the test that is meant to justify the sharing is wrong (a syntactic `mentions K`
+    analysis misses K inside type arguments, inside an alias, behind an indexed access..).  Decided for the frontend:
+    in a loop whose body pushes a binding onto the scope stack, no local declared outside the loop that holds a
+    Runtype is assigned inside the loop and read inside it other than by an accumulating call (insert / push /
+    extend) - each iteration starts from the same state."""
+    F = cx.rs
+    from facts import walk as hwalk
+    rep.rule(rid, "the members of a mapped type are lowered independently: nothing lowered under one key's binding is reused for another key")
+    n = 0
+    for g, t in sorted(F.hir.items()):
+        f = F.fns.get(g)
+        if f is None or "/src/frontend" not in (f.file or "") or f.kind == "Closure":
+            continue
+        outer_lets = {}
+        for x in hwalk(t["body"]):
+            if x["k"] == "LetStmt" and x["pat"]["k"] == "P.Binding" and "Runtype" in (x["pat"].get("ty") or ""):
+                outer_lets[x["pat"].get("lid")] = x
+        for lp in hwalk(t["body"]):
+            if not (lp["k"] == "Match" and lp.get("src") == "ForLoopDesugar"):
+                continue
+            pushes = [y for y in hwalk(lp) if y["k"] == "MethodCall" and y.get("method") == "push" and any(z["k"] == "Field" and "stack" in z.get("name", "") for z in hwalk(y["recv"]))]
+            if not pushes:
+                continue
+            n += 1
+            inside = {id(y) for y in hwalk(lp)}
+            declared_inside = {y["pat"].get("lid") for y in hwalk(lp) if y["k"] == "LetStmt" and y["pat"]["k"] == "P.Binding"}
+            carried = []
+            for lid, letst in outer_lets.items():
+                if lid in declared_inside or id(letst) in inside:
+                    continue
+                assigned = [y for y in hwalk(lp) if y["k"] == "Assign" and y["l"].get("k") == "Path" and y["l"].get("lid") == lid]
+                if not assigned:
+                    continue
+                reads = []
+                for y in hwalk(lp):
+                    if y["k"] == "MethodCall" and y.get("method") in ("insert", "push", "extend", "push_back", "append") and any(z["k"] == "Path" and z.get("lid") == lid for z in hwalk(y["recv"])):
+                        continue
+                    for key, v in y.items():
+                        if key == "l" and y["k"] == "Assign":
+                            continue
+                        if isinstance(v, dict) and v.get("k") == "Path" and v.get("lid") == lid:
+                            reads.append(y)
+                        elif isinstance(v, list):
+                            for z in v:
+                                if isinstance(z, dict) and z.get("k") == "Path" and z.get("lid") == lid:
+                                    reads.append(y)
+                if reads:
+                    carried.append(letst["pat"].get("name"))
+            rep.ob(rid, "%s/no-type-carried-between-keys" % g.rsplit("::", 1)[-1], not carried,
+                   "%s lowers the member of a mapped type under a per-key binding on the scope stack but carries %s from one key's iteration into the next: the member lowered for the first key is handed to the other keys wherever the sharing test is wrong (the key variable inside type arguments, behind an alias..), so `{ [K in 'a' | 'b']: Box<K> }` differs from its spelled-out form" % (g, ", ".join("`%s`" % c for c in carried)),
+                   "%s:%s" % (f.file, lp.get("line")), sample={"fn": g, "carried": carried})
+    rep.floor(rid, "loops that lower under a per-iteration scope binding", n, 1)
